@@ -311,6 +311,14 @@ func errNilEdges(c *FuncCFG, errObj types.Object) map[edge]bool {
 	})
 }
 
+// errNonNilEdges: the edges on which errObj was tested non-nil.
+func errNonNilEdges(c *FuncCFG, errObj types.Object) map[edge]bool {
+	return c.EdgesEstablishing(func(atom ast.Expr, val bool) bool {
+		o, trueMeansNil, ok := nilCompare(c.Fn, atom)
+		return ok && o == errObj && val != trueMeansNil
+	})
+}
+
 // errVarOfCall finds the error-typed variable that receives the (last) result of call
 // in the statement containing it.
 func errVarOfCall(fn *FuncNode, call *ast.CallExpr) types.Object {
